@@ -142,13 +142,20 @@ func init() {
 		Prop: "C15", Name: "event-bus",
 		NonTrivial: []string{"c15-delivery-checked"},
 		Build: func(w *World) {
-			pr := BuildProto(w, ProtoOpt{Peers: 1, MinServers: 1})
-			d := &c15Data{w: w, pr: pr}
+			d := &c15Data{w: w}
 			w.scData = d
 			nh := 2 + w.T.Choose(3, "handlers")
 			for i := 0; i < nh; i++ {
 				d.handlers = append(d.handlers, &c15Handler{id: i, d: d})
 			}
+			// applications usually subscribe before the first peer connects, i.e. before the
+			// stack's own handler exists: "core first" must not depend on who subscribed first
+			if w.T.Bool(1, 2, "application-subscribes-before-the-stack") {
+				d.subscribe(d.handlers[0])
+				w.Probe("c15-application-subscribed-before-core")
+			}
+			pr := BuildProto(w, ProtoOpt{Peers: 1, MinServers: 1})
+			d.pr = pr
 			// a harness handler at the core level, next to the real DeviceLocal
 			coreH := &c15Handler{id: 100, d: d, core: true}
 			spine.VerifSubscribeCore(coreH)
